@@ -379,6 +379,8 @@ func checkC12(c *run.Ctx) {
 }
 
 func c12Value(r *rand.Rand) string {
-	pool := []string{"linux", "x", "", "{{matrix}}", "{{matrix.a}}", "{{ matrix.b }}", "$HOME", `a\b`, "v1.2-rc_3", "with space", "{{", "}}", "é😀", "line\nbreak"}
+	pool := []string{"linux", "x", "", "{{matrix}}", "{{matrix.a}}", "{{ matrix.b }}", "$HOME", `a\b`, "v1.2-rc_3", "with space", "{{", "}}", "é😀", "line\nbreak",
+		// white space around a value is part of the value
+		" padded ", "trailing newline\n", "  ", "\ttab", "nbsp\u00a0"}
 	return pool[r.IntN(len(pool))]
 }
